@@ -43,7 +43,7 @@ ENV = dict(os.environ)
 ENV["CARGO_NET_OFFLINE"] = "true"
 ENV.setdefault("CARGO_TERM_COLOR", "never")
 
-MAX_RESTARTS = 6
+MAX_RESTARTS = 12
 MAX_PROBLEMS = 6          # distinct problem groups reported
 MAX_LINES = 12            # failing queries carried by one replay
 
